@@ -3,7 +3,7 @@
    the five lookup functions (all 256 argument values x RDS/RBDS x 3 tables, all 256 country
    arguments x 2 tables) as measured on the compiled library of the current tree (Gen.v), checked
    by the kernel.  Only `exact <lemma>` and Print Assumptions below. *)
-Require Import ObsRun Lemmas_Tables.
+Require Import ObsRun Lemmas_TabLookup.
 Local Open Scope Z_scope.
 
 (* total (no NULL, no embedded NUL), placeholder "Unknown" exactly outside 0..31, and inside the
